@@ -188,6 +188,7 @@ type PObj struct {
 	Esc    bool     `json:"esc"`
 	HashOK bool     `json:"hashok"` // stored hash == hash of stored bytes, and key == oid:<ObjectInfo.ID>
 	Refs   []string `json:"refs"`   // ObjectID of every RefValue outside ObjectInfo (with multiplicity)
+	NT     int      `json:"nt"`     // NewTime of the object id
 	size   int
 	raw    map[string]any
 	hashes map[string]string // target id -> hash embedded in the RefValue (non-escaped children)
@@ -263,7 +264,7 @@ func scan(db dbm.DB, oidPrefix string) ([]*PObj, error) {
 		if err := json.Unmarshal(js, &g); err != nil {
 			return nil, err
 		}
-		p := &PObj{ID: oi.ID.String(), RC: oi.RefCount, Esc: oi.IsEscaped,
+		p := &PObj{ID: oi.ID.String(), NT: int(oi.ID.NewTime), RC: oi.RefCount, Esc: oi.IsEscaped,
 			HashOK: bytes.Equal(h.Bytes(), hash) && k == "oid:"+oi.ID.String(), size: len(v), raw: g,
 			hashes: map[string]string{}, stored: fmt.Sprintf("%x", hash)}
 		if !oi.OwnerID.IsZero() {
@@ -281,6 +282,19 @@ func scan(db dbm.DB, oidPrefix string) ([]*PObj, error) {
 func has(db dbm.DB, oid string) bool {
 	v, err := db.Get([]byte(basePrefix + "oid:" + oid))
 	return err == nil && v != nil
+}
+
+// realmTime decodes Realm.Time (the object-id counter) from the raw oid:<pkgid>:1#realm record.
+func realmTime(db dbm.DB, hexid string) int {
+	v, err := db.Get([]byte(basePrefix + "oid:" + hexid + ":1#realm"))
+	if err != nil || v == nil {
+		return -1
+	}
+	var rlm *gno.Realm
+	if err := amino.Unmarshal(v, &rlm); err != nil {
+		mbt.Die("realm record %s: %v", hexid, err)
+	}
+	return int(rlm.Time)
 }
 
 func pkgHex(path string) string {
@@ -337,13 +351,14 @@ type instance struct {
 	hx, h2x     string
 	holder      map[int]string // 101 Root holder of heap, 102 Slots array of heap, 201 / 202 same for heap2
 	holderOf    map[string]int
+	kindOf      map[string]string
 	dumped      int
 }
 
 func (w *world) newInstance() *instance {
 	w.ninst++
 	in := &instance{heap: fmt.Sprintf("gno.land/r/verif/heap%d", w.ninst), heap2: fmt.Sprintf("gno.land/r/verif/heapx%d", w.ninst),
-		holder: map[int]string{}, holderOf: map[string]int{}}
+		holder: map[int]string{}, holderOf: map[string]int{}, kindOf: map[string]string{}}
 	in.hx, in.h2x = pkgHex(in.heap), pkgHex(in.heap2)
 	for _, p := range []appenv.Pkg{
 		{Path: in.heap2, Files: map[string]string{"heap2.gno": heap2Src(in.heap2)}},
@@ -635,6 +650,8 @@ func main() {
 		}
 		sum["replays"]++
 		good := true
+		var prevG *graph
+		handSeen := false
 		for si, st := range beh {
 			ops, _ := st["ops"].([]any)
 			if st.Bool("loop") && f.Mode != "crash" {
@@ -652,6 +669,39 @@ func main() {
 			wantAbort := st.Bool("abort")
 			g := w.scanInstance(in)
 			line++
+			// an object id never names two different kinds of object
+			for _, o := range g.objs {
+				if k, ok := in.kindOf[o.ID]; ok && k != o.Kind {
+					rep.mismatch("C06:IdCounterBehind:oid-reused", fmt.Sprintf("object id %s was a %s and now is a %s [script %q]", o.ID, k, o.Kind, sc), caseOf(si))
+				}
+				in.kindOf[o.ID] = o.Kind
+			}
+			// measured: a finalisation of the second realm minted ids from the first realm's counter while the
+			// first realm's bytes did not change (hand-over + equal-sized replacement)
+			if prevG != nil {
+				newIDs, bytes0, bytes1 := 0, 0, 0
+				for _, o := range g.objs {
+					if strings.HasPrefix(o.ID, in.hx) {
+						bytes1 += o.size
+						if prevG.by[o.ID] == nil {
+							newIDs++
+						}
+					}
+				}
+				for _, o := range prevG.objs {
+					if strings.HasPrefix(o.ID, in.hx) {
+						bytes0 += o.size
+					}
+				}
+				if st.Bool("hand") && newIDs > 0 && bytes0 == bytes1 {
+					sum["handover_equal_size_measured"]++
+					handSeen = true
+				} else if handSeen && newIDs > 0 {
+					sum["alloc_after_handover"]++
+					handSeen = false
+				}
+			}
+			prevG = g
 			if dumpDir != "" {
 				writeDump(dumpDir, w, in, g, line, bi, si)
 			}
@@ -825,9 +875,16 @@ func writeDump(dir string, w *world, in *instance, g *graph, line, bi, si int) {
 				}
 			}
 		}
-		objs[short(o.ID)] = map[string]any{"ispkg": o.IsPkg, "counted": full || !static(o), "rc": o.RC, "owner": short(o.Owner), "esc": o.Esc, "hashok": o.HashOK, "refs": refs}
+		rt := "h"
+		if strings.HasPrefix(o.ID, in.h2x) {
+			rt = "g"
+		}
+		objs[short(o.ID)] = map[string]any{"ispkg": o.IsPkg, "counted": full || !static(o), "rc": o.RC, "owner": short(o.Owner), "esc": o.Esc, "hashok": o.HashOK, "refs": refs,
+			"nt": o.NT, "rt": rt}
 	}
-	bz, _ := json.Marshal(map[string]any{"l": line, "beh": bi, "step": si, "objs": objs, "ext": ext})
+	// the persisted object-id counters of the two realms (every persisted id must be <= its realm's counter)
+	times := map[string]int{"h": realmTime(w.e.DB, in.hx), "g": realmTime(w.e.DB, in.h2x)}
+	bz, _ := json.Marshal(map[string]any{"l": line, "beh": bi, "step": si, "objs": objs, "ext": ext, "times": times})
 	if err := os.WriteFile(fmt.Sprintf("%s/realm_dump_%d.json", dir, line), append(bz, '\n'), 0o644); err != nil {
 		mbt.Die("dump: %v", err)
 	}
